@@ -16,6 +16,7 @@ import numpy as np
 
 sys.path.insert(0, os.path.join(os.path.dirname(os.path.abspath(__file__)),
                                 "..", "pylib"))
+sys.path.insert(0, os.path.dirname(os.path.abspath(__file__)))
 import calgen  # noqa: E402
 import runner as R  # noqa: E402
 from runner import Script, cx, hx, qs  # noqa: E402
@@ -198,8 +199,30 @@ def property_script(seed):
     return s.text()
 
 
+def selfcal_script(seed, which):
+    """unknown-parameter solves: analytic TRL and Levenberg-Marquardt"""
+    import C02
+    rng = np.random.default_rng([seed, 1212, 77, 0 if which == "trl" else 1])
+    if which == "trl":
+        sc, unk = C02.trl_scenario(rng, "TE10", 2)
+        settings = {}
+    else:
+        for _ in range(20):
+            sc, unk, info = C02.lm_scenario(rng, "T8", 2, 2, 2, 0.05)
+            if sc is not None and info.get("corr") is not None:
+                break
+        settings = dict(p_tol=1e-8, iter=50)
+    s, L = C02.emit(sc, unk, settings, sc.rand_dut())
+    s.op("dump_vnacal $vc")
+    s.op("vnacal_save $vc \"c12_%s.vnacal\"" % which)
+    s.op("read_file \"c12_%s.vnacal\"" % which)
+    return s.text()
+
+
 def all_scripts(seed):
     return [
+        ("cal_trl", selfcal_script(seed, "trl")),
+        ("cal_lm_corr", selfcal_script(seed, "lm")),
         ("param", param_script(seed)),
         ("property", property_script(seed)),
         ("vnadata", vnadata_script(seed)),
@@ -219,7 +242,7 @@ def all_scripts(seed):
 # ----------------------------------------------------------------------
 def strip(ev):
     d = {k: v for k, v in ev.items()
-         if k not in ("a0", "a1", "fault", "i", "retried")}
+         if k not in ("a0", "a1", "fault", "i", "retried", "ms")}
     if isinstance(d.get("ret"), str) and d["ret"].startswith("obj#"):
         d["ret"] = "obj"
     if not is_fail(d):
